@@ -400,7 +400,7 @@ def work(task):
     part = task["part"]
     T = task["T"]
     obj = family_cls(fam)(key, format="raw", alg=alg, digits=digits, period=period)
-    top = max(R.floordiv(T + skew + window, period), 0) + 2
+    top = max(R.floordiv(T + skew + window, period), T // period, 0) + 2
     codes = code_table(fam, key, alg, digits, top + 3)
     inv = collections.defaultdict(list)
     for c, txt in enumerate(codes):
@@ -486,7 +486,11 @@ def run(ctx):
                             tasks.append({"part": part, "fam": fam, "key": key, "alg": alg, "digits": digits, "period": period,
                                           "window": window, "skew": skew, "T": T if period < 30 else max(T, 100)})
     # heavy shards first (small periods have the most counters)
-    tasks.sort(key=lambda t: (t["part"] != "product", t["period"]))
+    def cost(t):
+        top = max(t["T"] + t["skew"] + t["window"], t["T"]) // t["period"] + 2
+        return -(top * top * (2 * t["window"] // t["period"] + 3)) * (1 if t["part"] == "product" else 0.1)
+
+    tasks.sort(key=cost)
     # ---- E2 configurations: (period, window, skew, last time)
     if ctx.quick:
         hist = [(1, 1, 0, 7), (2, 2, 0, 15), (2, 3, -1, 14), (3, 2, 1, 22), (3, 0, 0, 26), (2, 5, 0, 11), (5, 7, -3, 40)]
